@@ -119,6 +119,7 @@ type binCase struct {
 	sigs  []syscall.Signal
 	paced int  // 0: signals back to back; 1: later signals wait for the "is shutting down" log line; 2: and 100 ms more
 	early bool // phase none only: first signal as soon as Run has logged its start-up line
+	host  bool // -listen-addr names a host (localhost:port) instead of an address literal
 }
 
 func (c binCase) String() string {
@@ -129,6 +130,9 @@ func (c binCase) String() string {
 	mode := []string{"back-to-back", "paced", "settled"}[c.paced]
 	if c.early {
 		mode += ",early"
+	}
+	if c.host {
+		mode += ",listen-addr=localhost"
 	}
 	return fmt.Sprintf("binary phase=%s signals=%s %s", c.phase, strings.Join(s, ","), mode)
 }
@@ -158,6 +162,9 @@ func binCases() []binCase {
 				out = append(out, binCase{phase: ph, sigs: sq, paced: paced})
 				if ph == "none" {
 					out = append(out, binCase{phase: ph, sigs: sq, paced: paced, early: true})
+					if paced == 0 {
+						out = append(out, binCase{phase: ph, sigs: sq, early: true, host: true}, binCase{phase: ph, sigs: sq, host: true})
+					}
 				}
 			}
 		}
@@ -205,7 +212,11 @@ var errNotOurChild = fmt.Errorf("the port is served by another process")
 func runBinary(c binCase, dir string, certDER []byte, backendURL string) (res binResult) {
 	port := freePort()
 	addr := fmt.Sprintf("127.0.0.1:%d", port)
-	args := []string{"-listen-addr", addr, "-forward-url", backendURL, "-cert-filename", filepath.Join(dir, "tls.crt"), "-certkey-filename", filepath.Join(dir, "tls.key"),
+	listen := addr
+	if c.host {
+		listen = fmt.Sprintf("localhost:%d", port)
+	}
+	args := []string{"-listen-addr", listen, "-forward-url", backendURL, "-cert-filename", filepath.Join(dir, "tls.crt"), "-certkey-filename", filepath.Join(dir, "tls.key"),
 		"-metrics-listen-addr", "127.0.0.1:0", "-verbose"}
 	cmd := exec.Command(os.Args[0])
 	cmd.Env = append(os.Environ(), "VERIF_C17_CHILD=1", "VERIF_C17_ARGS="+strings.Join(args, "\x1f"))
@@ -235,7 +246,7 @@ func runBinary(c binCase, dir string, certDER []byte, backendURL string) (res bi
 			return true
 		}
 	}
-	if !lg.waitFor("server listening on "+addr, dead) {
+	if !lg.waitFor("server listening on "+listen, dead) {
 		res.harness = "child did not start: " + lg.String()
 		return
 	}
@@ -255,7 +266,7 @@ func runBinary(c binCase, dir string, certDER []byte, backendURL string) (res bi
 		// wait until the port accepts
 		deadline := time.Now().Add(binaryPatience)
 		for {
-			cn, err := net.DialTimeout("tcp", addr, time.Second)
+			cn, err := net.DialTimeout("tcp", listen, time.Second) // (by name where the server listens by name)
 			if err == nil {
 				cn.Close()
 				break
@@ -406,7 +417,7 @@ func runBinary(c binCase, dir string, certDER []byte, backendURL string) (res bi
 			res.violate("idle-h1-not-closed", "%v: the idle HTTP/1.1 connection was not closed (read n=%d err=%v)", c, n, err)
 		}
 	}
-	if cn, err := net.DialTimeout("tcp", addr, time.Second); err == nil {
+	if cn, err := net.DialTimeout("tcp", listen, time.Second); err == nil {
 		cn.Close()
 		res.violate("still-listening", "%v: %s still accepts connections after the process reported 'server closed'", c, addr)
 	}
